@@ -38,4 +38,34 @@ the repair visits rpc input and output) finds nothing". -/
 theorem noErrors_iff_walk_empty (e : Entry) : NoErrors e ↔ e.allErrors = [] :=
   Lemmas.Tree.noErrors_iff e
 
+/-- "No augment is left unapplied": when `Process` returns no errors, the pending-augment list
+(`Entry.Augments`) of every tree is empty in the state `Process` reaches before it applies the
+deviations (`Lemmas.Tree.preDev`: the `processAll` pipeline up to that point, named; deviations do
+not touch pending lists).  Reason: the last pass records an `augment-not-found` error on the root of
+every tree that keeps one, and a root error never disappears. -/
+theorem process_clean_no_pending (reg : Registry) (opts : Opts) (plug : Plug)
+    (h : (processAll reg opts plug).errors = []) : NoPending (Lemmas.Tree.preDev reg opts plug) :=
+  Lemmas.Tree.process_clean_no_pending reg opts plug h
+
+/-- `Lemmas.Tree.preDev` really is the state inside `processAll`: the outcome is computed from it
+(definitional unfolding of `processAll` into its named stages). -/
+theorem processAll_stages (reg : Registry) (opts : Opts) (plug : Plug) :
+    processAll reg opts plug =
+      if !(Lemmas.Tree.stage1Errs reg plug).isEmpty then
+        { errors := canonErrs (Lemmas.Tree.stage1Errs reg plug), forest := {}, reg := reg } else
+      if !(Lemmas.Tree.forestErrs (Lemmas.Tree.forest0 reg opts plug)).isEmpty then
+        { errors := canonErrs (Lemmas.Tree.forestErrs (Lemmas.Tree.forest0 reg opts plug)),
+          forest := Lemmas.Tree.forest0 reg opts plug, reg := reg } else
+      { errors := canonErrs (Lemmas.Tree.forestErrs (Lemmas.Tree.preDev reg opts plug).forest ++
+          (Lemmas.Tree.devStage reg opts plug (Lemmas.Tree.preDev reg opts plug).forest).2.1),
+        forest := (Lemmas.Tree.devStage reg opts plug (Lemmas.Tree.preDev reg opts plug).forest).1, reg := reg } :=
+  Lemmas.Tree.processAll_eq reg opts plug
+
+/-- After `FixChoice`, every child of every choice node that carries no error of its own is a
+case (for every tree). -/
+theorem fixChoice_cases (e : Entry) : ChoiceCases (fixChoice e) := Lemmas.Tree.fixChoice_cases e
+
+/-- `FixChoice` is idempotent. -/
+theorem fixChoice_idem (e : Entry) : fixChoice (fixChoice e) = fixChoice e := Lemmas.Tree.fixChoice_idem e
+
 end Goyang.Props.C04
